@@ -134,17 +134,22 @@ def judge(c, rec):
         g = float(out.loc[a, "temperature"])
         last = k == len(mdays) - 1
         # the previous meter day is a 23/25-hour day: from_series measures the last meter period in elapsed time
-        after_dst = last and k > 0 and (days[k] - days[k - 1]) != pd.Timedelta(days=1) and c["entry"] == "from_series"
+        after_dst = (last and k > 0 and c["entry"] == "from_series"
+                     and ((days[k] - days[k - 1]) != pd.Timedelta(days=1) or (days[k + 1] - days[k]) != pd.Timedelta(days=1)))
         kind = "full" if frac == 1 else ("partial" if frac > 0.5 else "low")
+        dst_day = (b - a) != pd.Timedelta(days=1)
+        # billing compares with the median day: a 23-hour day with exactly 12 readings present
+        half_of_median = c["family"] == "billing" and dst_day and len(pres) * 2 == 24 * (60 // c["step"])
         if math.isnan(exp) != math.isnan(g) or (not math.isnan(exp) and abs(g - exp) > 1e-9 * max(1.0, abs(exp))):
-            if rec.violation("%s/%s-day%s%s" % (key, kind, "/last-day" if last else "", "/after-dst" if after_dst else ""), c,
+            if rec.violation("%s/%s-day%s%s%s" % (key, kind, "/last-day" if last else "", "/after-dst" if after_dst else "",
+                                                   "/dst-day-half-of-median" if half_of_median else ""), c,
                              "%s: %d of %d readings present, data frame has %r, mean of the present readings is %r" % (a, len(pres), tot, g, exp)):
                 break
             continue  # a listed finding: keep judging the other days
         if hook is not None and a in hook.index and "temperature_not_null" in hook.columns:
             nn, nu = hook.loc[a, "temperature_not_null"], hook.loc[a, "temperature_null"]
             if not (pd.isna(nn) or pd.isna(nu)) and (int(nn), int(nu)) != (len(pres), tot - len(pres)) and c["step"] == 60:
-                rec.violation(key + "/coverage-counts", c, "%s: counts present/absent %d/%d, reference %d/%d" % (a, int(nn), int(nu), len(pres), tot - len(pres)))
+                rec.violation(key + "/coverage-counts" + ("/last-day" if last else "") + ("/after-dst" if after_dst else ""), c, "%s: counts present/absent %d/%d, reference %d/%d" % (a, int(nn), int(nu), len(pres), tot - len(pres)))
                 break
         judged += 1
     dst = len(set(t.utcoffset() for t in days)) > 1
